@@ -1,3 +1,5 @@
+//go:build verif
+
 package main
 
 // C20 core: complete enumeration of the valid rune-literal space against strconv.UnquoteChar, plus
